@@ -1,23 +1,236 @@
 /* UNIT
 {
  "id": "MAP.putget.bnd",
- "file": "map.c", "function": "mapput", "also_functions": ["mapget", "keyindex", "keyequal", "mapkey"],
- "properties": {"C16": "contract", "C19": "safety"},
+ "file": "map.c",
+ "function": "mapput",
+ "also_functions": [
+  "mapget",
+  "keyindex",
+  "keyequal",
+  "mapkey"
+ ],
+ "properties": {
+  "C16": "contract",
+  "C19": "safety"
+ },
  "mode": "harness",
- "replace_calls": {"hash": "uf_hash", "memcmp": "verif_memcmp2"},
+ "replace_calls": {
+  "hash": "uf_hash",
+  "memcmp": "verif_memcmp2"
+ },
  "kind": "bounded",
- "bound": "ONE mapput (+ store) or ONE mapget on EVERY well-formed table of capacity 4 or 8 (any occupancy up to cap/2+1, any keys of 0..2 bytes, any 64-bit hash values, any probe/collision/wrap-around layout); growth 4->8 and 8->16 included. Inductive: the post-state is again well-formed, so sequences of any length are covered while the capacity stays <= 8 before the operation",
- "cflags": ["-DVERIF_OWN_XMALLOC"],
- "variants": {"put4": ["-DV_CAP=4", "-DV_PUT=1"], "put8": ["-DV_CAP=8", "-DV_PUT=1"], "get4": ["-DV_CAP=4", "-DV_PUT=0"], "get8": ["-DV_CAP=8", "-DV_PUT=0"]},
- "canary_variant": "put4",
- "unwindset": ["uf_hash.0:11", "uf_peek.0:11", "keyindex.0:17", "mapput.0:17", "mapput.1:9", "build.0:9", "inv_pre.0:9", "inv_pre.1:9", "inv_pre.2:9", "lookup_pre.0:9", "lookup_now.0:17", "count_now.0:17"],
- "timeout": 300, "mem_gb": 8,
- "expects": ["assertion_verif", "pointer_dereference"],
- "assumes": ["hash() is a deterministic function of (len, the len key bytes): it is replaced by an uninterpreted function of them (fresh value per call unless the same bytes were hashed before), which covers the real FNV-1a loop and every other hash; with the real 64-bit multiplications two operations were undecided after 170 s",
-             "memcmp for n <= 2 modelled by two byte comparisons (CBMC's library loop replaced)",
-             "xreallocarray does not fail",
-             "capacity >= 4 (call sites use 8, 32, 64): with capacity 1 or 2 the table can become FULL (growth is decided before the insertion, when len > cap/2) and a lookup of an absent key then probes forever",
-             "key bytes stay alive and unmodified while the key is in the table (clients pass interned identifiers / literal data)"]
+ "bound": "ONE mapput (+ store) or ONE mapget on EVERY well-formed table of capacity 4 (any occupancy up to cap/2+1, any keys of 0..2 bytes, any 64-bit hash values, hence any collision / probe / wrap-around layout); growth 4->8 with rehash included. Inductive: the post-state is again well-formed, so operation sequences of any length are covered as long as the capacity is 4 before the operation",
+ "cflags": [
+  "-DVERIF_OWN_XMALLOC"
+ ],
+ "variants": {
+  "get4": [
+   "-DV_CAP=4",
+   "-DV_PUT=0"
+  ],
+  "put4s1": [
+   "-DV_CAP=4",
+   "-DV_PUT=1",
+   "-DV_GROW=0",
+   "-DV_POSTSET=1"
+  ],
+  "put4s2": [
+   "-DV_CAP=4",
+   "-DV_PUT=1",
+   "-DV_GROW=0",
+   "-DV_POSTSET=2"
+  ],
+  "put4s3": [
+   "-DV_CAP=4",
+   "-DV_PUT=1",
+   "-DV_GROW=0",
+   "-DV_POSTSET=3"
+  ],
+  "put4s4": [
+   "-DV_CAP=4",
+   "-DV_PUT=1",
+   "-DV_GROW=0",
+   "-DV_POSTSET=4"
+  ],
+  "put4g1": [
+   "-DV_CAP=4",
+   "-DV_PUT=1",
+   "-DV_GROW=1",
+   "-DV_POSTSET=1"
+  ],
+  "put4g2": [
+   "-DV_CAP=4",
+   "-DV_PUT=1",
+   "-DV_GROW=1",
+   "-DV_POSTSET=2"
+  ],
+  "put4g3": [
+   "-DV_CAP=4",
+   "-DV_PUT=1",
+   "-DV_GROW=1",
+   "-DV_POSTSET=3"
+  ],
+  "put4g4": [
+   "-DV_CAP=4",
+   "-DV_PUT=1",
+   "-DV_GROW=1",
+   "-DV_POSTSET=4"
+  ]
+ },
+ "canary_variant": "put4g1",
+ "unwindset": [
+  "uf_hash.0:7",
+  "uf_peek.0:7",
+  "keyindex.0:5",
+  "mapput.0:9",
+  "mapput.1:5",
+  "build.0:5",
+  "inv_pre.0:5",
+  "inv_pre.1:5",
+  "inv_pre.2:5",
+  "lookup_pre.0:5",
+  "lookup_now.0:9",
+  "count_now.0:9"
+ ],
+ "timeout": 300,
+ "mem_gb": 8,
+ "expects": [
+  "assertion_verif",
+  "pointer_dereference"
+ ],
+ "assumes": [
+  "hash() is a deterministic function of (len, the len key bytes): it is replaced by an uninterpreted function of them (fresh value per call unless the same bytes were hashed before), which covers the real FNV-1a loop and every other hash; with the real 64-bit multiplications two operations were undecided after 170 s",
+  "memcmp for n <= 2 modelled by two byte comparisons (CBMC's library loop replaced)",
+  "xreallocarray does not fail",
+  "capacity >= 4 (call sites use 8, 32, 64): with capacity 1 or 2 the table can become FULL (growth is decided before the insertion, when len > cap/2) and a lookup of an absent key then probes forever",
+  "key bytes stay alive and unmodified while the key is in the table (clients pass interned identifiers / literal data)"
+ ],
+ "tiers": {
+  "thorough": {
+   "variants": {
+    "get4": [
+     "-DV_CAP=4",
+     "-DV_PUT=0"
+    ],
+    "put4s1": [
+     "-DV_CAP=4",
+     "-DV_PUT=1",
+     "-DV_GROW=0",
+     "-DV_POSTSET=1"
+    ],
+    "put4s2": [
+     "-DV_CAP=4",
+     "-DV_PUT=1",
+     "-DV_GROW=0",
+     "-DV_POSTSET=2"
+    ],
+    "put4s3": [
+     "-DV_CAP=4",
+     "-DV_PUT=1",
+     "-DV_GROW=0",
+     "-DV_POSTSET=3"
+    ],
+    "put4s4": [
+     "-DV_CAP=4",
+     "-DV_PUT=1",
+     "-DV_GROW=0",
+     "-DV_POSTSET=4"
+    ],
+    "put4g1": [
+     "-DV_CAP=4",
+     "-DV_PUT=1",
+     "-DV_GROW=1",
+     "-DV_POSTSET=1"
+    ],
+    "put4g2": [
+     "-DV_CAP=4",
+     "-DV_PUT=1",
+     "-DV_GROW=1",
+     "-DV_POSTSET=2"
+    ],
+    "put4g3": [
+     "-DV_CAP=4",
+     "-DV_PUT=1",
+     "-DV_GROW=1",
+     "-DV_POSTSET=3"
+    ],
+    "put4g4": [
+     "-DV_CAP=4",
+     "-DV_PUT=1",
+     "-DV_GROW=1",
+     "-DV_POSTSET=4"
+    ],
+    "get8": [
+     "-DV_CAP=8",
+     "-DV_PUT=0"
+    ],
+    "put8s1": [
+     "-DV_CAP=8",
+     "-DV_PUT=1",
+     "-DV_GROW=0",
+     "-DV_POSTSET=1"
+    ],
+    "put8s2": [
+     "-DV_CAP=8",
+     "-DV_PUT=1",
+     "-DV_GROW=0",
+     "-DV_POSTSET=2"
+    ],
+    "put8s3": [
+     "-DV_CAP=8",
+     "-DV_PUT=1",
+     "-DV_GROW=0",
+     "-DV_POSTSET=3"
+    ],
+    "put8s4": [
+     "-DV_CAP=8",
+     "-DV_PUT=1",
+     "-DV_GROW=0",
+     "-DV_POSTSET=4"
+    ],
+    "put8g1": [
+     "-DV_CAP=8",
+     "-DV_PUT=1",
+     "-DV_GROW=1",
+     "-DV_POSTSET=1"
+    ],
+    "put8g2": [
+     "-DV_CAP=8",
+     "-DV_PUT=1",
+     "-DV_GROW=1",
+     "-DV_POSTSET=2"
+    ],
+    "put8g3": [
+     "-DV_CAP=8",
+     "-DV_PUT=1",
+     "-DV_GROW=1",
+     "-DV_POSTSET=3"
+    ],
+    "put8g4": [
+     "-DV_CAP=8",
+     "-DV_PUT=1",
+     "-DV_GROW=1",
+     "-DV_POSTSET=4"
+    ]
+   },
+   "timeout": 1500,
+   "unwindset": [
+    "uf_hash.0:11",
+    "uf_peek.0:11",
+    "keyindex.0:7",
+    "mapput.0:17",
+    "mapput.1:9",
+    "build.0:9",
+    "inv_pre.0:9",
+    "inv_pre.1:9",
+    "inv_pre.2:9",
+    "lookup_pre.0:9",
+    "lookup_now.0:17",
+    "count_now.0:17"
+   ],
+   "bound": "as quick, for capacity 4 and 8 (growth 4->8 and 8->16)"
+  }
+ }
 }
 */
 /*
